@@ -971,43 +971,43 @@ fn run_process(progs: &[String], limits: &Limits, timeout_ms: u64) -> (Vec<Trace
 pub fn run_batch(js_programs: &[String], limits: &Limits, per_program_timeout_ms: u64) -> Vec<Trace> {
   let mut out: Vec<Trace> = Vec::with_capacity(js_programs.len());
   let mut alone_next = false;
+  // consecutive programs blamed without any program answering in between
+  let mut blamed_in_a_row = 0usize;
   while out.len() < js_programs.len() {
     let start = out.len();
-    let slice =
-      if alone_next { &js_programs[start..start + 1] } else { &js_programs[start..] };
+    let slice = if alone_next { &js_programs[start..start + 1] } else { &js_programs[start..] };
     let was_alone = slice.len() == 1;
     alone_next = false;
     let (got, stop) = run_process(slice, limits, per_program_timeout_ms);
-    let answered = got.len();
+    if !got.is_empty() {
+      blamed_in_a_row = 0;
+    }
     out.extend(got);
-    match stop {
-      BatchStop::Done => {}
+    let verdict = match stop {
+      BatchStop::Done => continue,
       BatchStop::NoStart(e) | BatchStop::Protocol(e) => {
         // not attributable to a program: everything left is inconclusive
         while out.len() < js_programs.len() {
           out.push(Trace::harness(e.clone()));
         }
+        break;
       }
-      BatchStop::Died(why) => {
-        if was_alone || answered > 0 {
-          if was_alone {
-            out.push(Trace::harness(format!("node died ({why})")));
-          } else {
-            // first unanswered program is the suspect: re-run it alone
-            alone_next = true;
-          }
-        } else {
-          // died before answering anything: suspect is the first one, try it alone
-          alone_next = true;
+      BatchStop::Died(why) => format!("node died ({why})"),
+      BatchStop::Hung => "node hung (killed)".to_string(),
+    };
+    // the first unanswered program is the suspect
+    if was_alone {
+      out.push(Trace::harness(verdict.clone()));
+      blamed_in_a_row += 1;
+      if blamed_in_a_row >= 3 {
+        // node itself is broken; do not spawn two processes per remaining program
+        while out.len() < js_programs.len() {
+          out.push(Trace::harness(format!("{verdict} (node keeps failing; not attributed)")));
         }
       }
-      BatchStop::Hung => {
-        if was_alone {
-          out.push(Trace::harness("node hung (killed)".to_string()));
-        } else {
-          alone_next = true;
-        }
-      }
+    } else {
+      // re-run it alone to tell a culprit from a victim, then carry on with the rest
+      alone_next = true;
     }
   }
   out.truncate(js_programs.len());
